@@ -153,6 +153,19 @@ CHECKS = {
   design_ref="DESIGN.md 3.2, 6 (C13)",
   note="Trusted: TLC, helpers; unquoted produced text with blanks may arrive split.",
   technique="TLA+ tagged-character reference (NoRescan) checked by TLC; enumerated payload deliveries replayed on the binary"),
+ "C09": dict(
+  category="model_checking",
+  text="spec/EnvDir.tla holds the implementation-shaped state (Shell.envs, the process environment, cwd, previous directory, $PWD) "
+       "with the lookup orders as coded and, next to it, the reference table name -> [value, exported] and reference directory "
+       "state; TLC checks that the coded lookups equal the reference after every history of up to 5 operations (573 k states) "
+       "over assignment, prefixed command, export, unset, read and cd (absolute, relative, .., via a symlink, no argument, -, a "
+       "file, a missing name, .). TLC simulation generates histories of 30 operations with the reference observation after each; "
+       "every history is rendered to a script with an observation command after every operation and run by the real binary; "
+       "oracle: what expansions show, what the child's environment holds, the child's working directory, $PWD, where a relative "
+       "redirection lands, the prefixed command's own environment, cd's status.",
+  design_ref="DESIGN.md 3.9, 6 (C09)",
+  note="Trusted: TLC, helper vpa (logs selected environment and cwd); values in one quoting style; read is given a fixed line.",
+  technique="TLA+ model of variable / directory state vs reference scoping checked by TLC; TLC-simulated histories replayed on the binary"),
  "C06": dict(
   category="model_checking",
   text="TLC explores every interleaving of child status changes (with Linux's report coalescing), foreground-wait iterations, "
